@@ -16,7 +16,7 @@ from .. import gen_schema_full as G
 PROP = "C13"
 THEOREMS = ["C13_subtype", "C13_signature", "C13_memo", "C13_perm", "C13_verdict", "C13_all_reported_partial",
             "C13_all_reported", "C13_structural_mode", "C13_errors_sound",
-            "C13_verdict_member_order"]
+            "C13_verdict_member_order", "C13_errors_sound_by_label", "C13_claims_reported"]
 AXIOMS_OK = []
 RUN_MODULE = "Run.C13run Schema.SchemaFull Schema.SchemaValidateModel Spec.SchemaValidSpec"
 AGREE = "agree_C13"
